@@ -390,3 +390,102 @@ theorem step_fresh {γ} (d : Dir γ) (op : Op γ) (n : Name) (h : (step d op).2 
         cases r <;> simp [get_put_self]
 
 end Files
+
+namespace Files
+
+/-! ### repeated outputs of one model: the documented sequence of names -/
+
+/-- exactly the first `i` candidates of (name, ext) exist -/
+def ExactlyFirst {γ} (d : Dir γ) (name ext : Name) (i : Nat) : Prop :=
+  ∀ j, candidate name ext j ∈ names d ↔ j < i
+
+theorem write_next {γ} (d : Dir γ) (name ext : Name) (c : γ) (i : Nat) (h : ExactlyFirst d name ext i) :
+    writeNew d name ext c = some ((candidate name ext i, c) :: d, candidate name ext i) ∧
+    ExactlyFirst ((candidate name ext i, c) :: d) name ext (i + 1) := by
+  obtain ⟨j, hw, hex, hall⟩ := writeNew_spec d name ext c
+  have hj_not : candidate name ext j ∉ names d := fun hh => by
+    have := (existsB_iff d _).mpr hh; rw [hex] at this; cases this
+  have h1 : ¬ j < i := fun hlt => hj_not ((h j).mpr hlt)
+  have h2 : ¬ i < j := fun hlt => by
+    have := (existsB_iff d _).mp (hall i hlt)
+    exact Nat.lt_irrefl i ((h i).mp this)
+  have hji : j = i := by omega
+  subst hji
+  refine ⟨hw, ?_⟩
+  intro j'
+  rw [mem_names_cons]
+  constructor
+  · rintro (heq | hmem)
+    · have := candidate_inj name ext heq; omega
+    · have := (h j').mp hmem; omega
+  · intro hlt
+    by_cases hji : j' = j
+    · left; rw [hji]
+    · right; exact (h j').mpr (by omega)
+
+/-- `k` outputs of one (name, ext) from a directory without such files are named
+`name.ext, name~00.ext, name~01.ext, …` in this order -/
+theorem same_name_run {γ} (name ext : Name) : ∀ (cs : List γ) (d : Dir γ) (i : Nat),
+    ExactlyFirst d name ext i →
+    (run d (cs.map fun c => Op.write name ext c)).2 = (List.range' i cs.length).map (fun j => some (candidate name ext j)) ∧
+    ExactlyFirst (run d (cs.map fun c => Op.write name ext c)).1 name ext (i + cs.length) ∧
+    (run d (cs.map fun c => Op.write name ext c)).1.length = d.length + cs.length := by
+  intro cs
+  induction cs with
+  | nil => intro d i h; exact ⟨rfl, by simpa [run] using h, rfl⟩
+  | cons c t ih =>
+    intro d i h
+    obtain ⟨hw, hnext⟩ := write_next d name ext c i h
+    have hstep : step d (Op.write name ext c) = ((candidate name ext i, c) :: d, some (candidate name ext i)) := by
+      simp only [step, hw]
+    obtain ⟨h1, h2, h3⟩ := ih ((candidate name ext i, c) :: d) (i + 1) hnext
+    simp only [List.map_cons, run_cons, hstep, List.length_cons]
+    refine ⟨?_, ?_, ?_⟩
+    · rw [h1, List.range'_succ]; rfl
+    · have : i + (t.length + 1) = i + 1 + t.length := by omega
+      rw [this]; exact h2
+    · rw [h3]; simp only [List.length_cons]; omega
+
+theorem filter_lt_range (k n : Nat) (h : k ≤ n) : (List.range n).filter (fun j => decide (j < k)) = List.range k := by
+  induction n with
+  | zero => have : k = 0 := by omega
+            subst this; rfl
+  | succ n ih =>
+    rw [List.range_succ, List.filter_append]
+    by_cases hk : k ≤ n
+    · rw [ih hk]
+      have : decide (n < k) = false := by simpa using hk
+      simp [List.filter_cons, this]
+    · have hkn : k = n + 1 := by omega
+      subst hkn
+      have h1 : (List.range n).filter (fun j => decide (j < n + 1)) = List.range n := by
+        rw [List.filter_eq_self]
+        intro a ha
+        simp only [List.mem_range] at ha
+        simpa using Nat.lt_succ_of_lt ha
+      rw [h1, List.range_succ]
+      simp
+
+/-- with exactly the first `k ≥ 1` candidates present, the repaired recycling reads the last one -/
+theorem recycleChoice_last {γ} (d : Dir γ) (name ext : Name) (k : Nat) (hk : 0 < k) (hkd : k ≤ d.length)
+    (h : ExactlyFirst d name ext k) :
+    recycleChoice (names d) name ext = some (candidate name ext (k - 1)) := by
+  unfold recycleChoice
+  have hf : (List.range ((names d).length + 1)).filter (fun j => (names d).contains (candidate name ext j))
+      = List.range k := by
+    rw [← filter_lt_range k ((names d).length + 1) (by simp only [names, List.length_map]; omega)]
+    apply List.filter_congr
+    intro j _
+    have := h j
+    by_cases hj : j < k
+    · simp [hj, this.mpr hj]
+    · have hn : candidate name ext j ∉ names d := fun hh => hj (this.mp hh)
+      simp [hj, hn]
+  simp only [hf]
+  have : (List.range k).getLast? = some (k - 1) := by
+    cases k with
+    | zero => omega
+    | succ k => rw [List.range_succ]; simp
+  rw [this]
+
+end Files
